@@ -963,7 +963,7 @@ namespace avel {
         *exp = _mm256_maskz_cvttps_epi32(is_non_zero, exponents);
 
         auto ret = _mm256_getmant_ps(decay(v), _MM_MANT_NORM_p5_1, _MM_MANT_SIGN_src);
-        ret = _mm256_maskz_mov_ps(is_non_zero, ret);
+        ret = _mm256_mask_mov_ps(decay(v), is_non_zero, ret);
         ret = _mm256_mask_blend_ps(is_infinity, ret, decay(v));
         return vec8x32f{ret};
 
@@ -976,7 +976,7 @@ namespace avel {
         *exp = _mm256_maskz_cvttps_epi32(is_non_zero, exponents);
 
         auto ret = _mm256_getmant_ps(decay(v), _MM_MANT_NORM_p5_1, _MM_MANT_SIGN_src);
-        ret = _mm256_maskz_mov_ps(is_non_zero, ret);
+        ret = _mm256_mask_mov_ps(decay(v), is_non_zero, ret);
         ret = _mm256_mask_blend_ps(is_infinity, ret, decay(v));
         return vec8x32f{ret};
 
